@@ -64,6 +64,20 @@ def h1leading (args : List String) : String :=
     | none => "bad-args"
   | _ => "bad-args"
 
+/-- `h1handover <flags> <segments> <max_bytes list>`: the head loop, then successive reads of the handed-over
+stream through the leading data and on into the network -/
+def h1handover (args : List String) : String :=
+  match args with
+  | [flags, segs, ms] =>
+    match parseBytesList segs, parseNatList ms with
+    | some ss, some ms =>
+      let ri := parseReqInfo flags
+      let r := feedUntilSwitched ri ([], .head, []) ss
+      let h := handoverReads r.1.2.2 r.2 ms
+      s!"state={showSt r.1.2.1} reads=" ++ joinWith "," (h.1.map hexOfBytes) ++ s!" held={hexOfBytes h.2.1} net={h.2.2.length}"
+    | _, _ => "bad-args"
+  | _ => "bad-args"
+
 /-- `h1head <a> <b> <d1> <d2> <d3> <reason hex|-> <headers>`: is this head well-formed, and the bytes a server sends for it -/
 def h1head (args : List String) : String :=
   match args with
